@@ -103,7 +103,7 @@ Definition star_pops (d : directive) : list argty :=
 Lemma width_phase : forall d v (pre : list byte) (t2 : list byte) c2 r2 out rest pops cache na opts fuel,
   width_ok d = true ->
   (match d_width d with WStar => in_int_range (a_width v) && negb (a_width v =? -2147483648) | _ => true end) = true ->
-  arg_pos opts = -1 ->
+  (d_width d = WStar -> arg_pos opts = -1) ->
   t2 = c2 :: r2 -> is_digit c2 = false -> c2 <> 42%N -> nz36 c2 ->
   (S (length (width_chars d)) < fuel)%nat ->
   let st := mk_ps out (mk_vs ((match d_width d with WStar => [slot32 (a_width v)] | _ => [] end) ++ rest) pops cache na) in
@@ -144,7 +144,7 @@ Proof.
     apply andb_true_iff in Hfit. destruct Hfit as [Hr Hmin].
     assert (Hpop : pop_arg t_int opts (mk_ps out (mk_vs ([slot32 (a_width v)] ++ rest) pops cache na))
                    = (mk_ps out (mk_vs rest (pops ++ [ATInt]) cache na), Ok (a_width v))).
-    { unfold pop_arg. rewrite Hap. rewrite Z.eqb_refl. unfold pop_va. cbn [ps_vs va_rest app ps_out va_pops arg_list num_args].
+    { unfold pop_arg. rewrite (Hap eq_refl). rewrite Z.eqb_refl. unfold pop_va. cbn [ps_vs va_rest app ps_out va_pops arg_list num_args].
       rewrite interp_int_slot32 by assumption. reflexivity. }
     mstep ltac:(exact Hpop).
     unfold star_width. destruct (a_width v <? 0) eqn:El.
@@ -157,7 +157,7 @@ Qed.
 Lemma prec_phase : forall d v (pre : list byte) (t3 : list byte) c3 r3 out rest pops cache na opts fuel,
   prec_ok d = true ->
   (match d_prec d with PStar => in_int_range (a_prec v) | _ => true end) = true ->
-  arg_pos opts = -1 ->
+  (d_prec d = PStar -> arg_pos opts = -1) ->
   t3 = c3 :: r3 -> plain c3 ->
   (S (S (length (prec_chars d))) < fuel)%nat ->
   let st := mk_ps out (mk_vs ((match d_prec d with PStar => [slot32 (a_prec v)] | _ => [] end) ++ rest) pops cache na) in
@@ -215,7 +215,7 @@ Proof.
     mstep ltac:(apply (assert_nz_app pre (46%N :: 42%N :: c3 :: r3) 2); [cbn; lia | cbn [nth]; assumption]).
     assert (Hpop : pop_arg t_int opts (mk_ps out (mk_vs ([slot32 (a_prec v)] ++ rest) pops cache na))
                    = (mk_ps out (mk_vs rest (pops ++ [ATInt]) cache na), Ok (a_prec v))).
-    { unfold pop_arg. rewrite Hap. rewrite Z.eqb_refl. unfold pop_va. cbn [ps_vs va_rest app ps_out va_pops arg_list num_args].
+    { unfold pop_arg. rewrite (Hap eq_refl). rewrite Z.eqb_refl. unfold pop_va. cbn [ps_vs va_rest app ps_out va_pops arg_list num_args].
       rewrite interp_int_slot32 by assumption. reflexivity. }
     mstep ltac:(exact Hpop). unfold ret. reflexivity.
 Qed.
@@ -224,7 +224,7 @@ Lemma width_phase_k : forall B (K : nat * format_options -> M B) s pos d v (pre 
   s = pre ++ width_chars d ++ t2 -> pos = length pre ->
   width_ok d = true ->
   (match d_width d with WStar => in_int_range (a_width v) && negb (a_width v =? -2147483648) | _ => true end) = true ->
-  arg_pos opts = -1 ->
+  (d_width d = WStar -> arg_pos opts = -1) ->
   t2 = c2 :: r2 -> is_digit c2 = false -> c2 <> 42%N -> nz36 c2 ->
   (S (length (width_chars d)) < fuel)%nat ->
   (c <-- read s pos ;;;
@@ -261,7 +261,7 @@ Lemma prec_phase_k : forall B (K : nat * format_options -> M B) s pos d v (pre :
   s = pre ++ prec_chars d ++ t3 -> pos = length pre ->
   prec_ok d = true ->
   (match d_prec d with PStar => in_int_range (a_prec v) | _ => true end) = true ->
-  arg_pos opts = -1 ->
+  (d_prec d = PStar -> arg_pos opts = -1) ->
   t3 = c3 :: r3 -> plain c3 ->
   (S (S (length (prec_chars d))) < fuel)%nat ->
   (c <-- read s pos ;;;
@@ -405,14 +405,14 @@ Proof.
   rewrite (width_phase_k _ _ s _ d v ([37%N] ++ F) (prec_chars d ++ tail3 d) c2 r2);
     [ | rewrite Hs; rewrite <- app_assoc; reflexivity
       | rewrite app_length; rewrite HF; reflexivity
-      | assumption | assumption | assumption | assumption | assumption | assumption | assumption | lia].
+      | assumption | assumption | intros _; assumption | assumption | assumption | assumption | assumption | lia].
   cbv beta iota.
   set (o2 := width_opts d v o1).
   assert (Ho2 : arg_pos o2 = -1) by (subst o2; rewrite width_opts_arg_pos; assumption).
   rewrite (prec_phase_k _ _ s _ d v (([37%N] ++ F) ++ width_chars d) (tail3 d) c3 r3);
     [ | rewrite Hs; rewrite <- !app_assoc; reflexivity
       | rewrite !app_length; rewrite HF; cbn [length]; lia
-      | assumption | assumption | assumption | assumption | assumption | lia].
+      | assumption | assumption | intros _; assumption | assumption | assumption | lia].
   cbv beta iota.
   mstep ltac:(apply (parse_size_mod_eval' s _ (d_len d) ((([37%N] ++ F) ++ width_chars d) ++ prec_chars d) (conv_char (d_conv d)));
               [rewrite Hs; unfold tail3; rewrite <- !app_assoc; reflexivity
@@ -457,6 +457,173 @@ Proof.
   intros d v out rest pops cache na st2 Hpos Hconv Hwok Hpok Hwfit Hpfit Hag.
   pose proof (parse_directive_render d v out rest pops cache na st2 Hpos Hconv Hwok Hpok Hwfit Hpfit Hag) as Hpd.
   destruct (render_head d Hpos Hconv Hwok) as [c [r [Hs [Hc0 Hc37]]]].
+  remember (render d) as s eqn:Es. clear Es. subst s.
+  unfold printf_format_with. cbn [length format_loop].
+  mstep ltac:(apply (read_app0 [] (37%N :: c :: r))). cbn [nth N.eqb Pos.eqb negb].
+  mstep ltac:(apply (assert_nz_app [37%N] (c :: r) 0); [cbn; lia | assumption]).
+  mstep ltac:(apply (read_app0 [37%N] (c :: r))). cbn [nth].
+  apply N.eqb_neq in Hc37. rewrite Hc37.
+  mstep ltac:(exact Hpd). cbn [fst snd format_loop].
+  mstep ltac:(apply read_end). cbn [N.eqb]. reflexivity.
+Qed.
+
+(* ------------------------------------------------------------------------------------------ *)
+(* the same with an optional n$ prefix                                                          *)
+(* ------------------------------------------------------------------------------------------ *)
+Definition pos_chars (d : directive) : list byte :=
+  match d_pos d with Some n => [(48 + n)%N; 36%N] | None => [] end.
+Definition base_opts (d : directive) : format_options :=
+  match d_pos d with
+  | Some n => set_arg_pos (Z.of_N n - 1) (set_dollar false default_options)
+  | None => set_dollar false default_options
+  end.
+Definition opts_from (d : directive) (v : argval) : format_options :=
+  prec_opts d v (width_opts d v (apply_flags (d_flags d) (base_opts d))).
+Definition dollar_of (d : directive) : bool := match d_pos d with Some _ => true | None => false end.
+
+Lemma opts_from_nopos : forall d v, d_pos d = None -> opts_from d v = opts_of d v.
+Proof. intros d v H. unfold opts_from, opts_of, base_opts. rewrite H. reflexivity. Qed.
+
+Lemma render_shape_gen : forall d, d_conv d <> Cpct ->
+  render d = [37%N] ++ pos_chars d ++ map flag_char (d_flags d) ++ width_chars d ++ prec_chars d ++ tail3 d.
+Proof.
+  intros d Hc. unfold render, width_chars, prec_chars, tail3, pos_chars.
+  destruct (d_conv d); try congruence; destruct (d_pos d); cbn [app]; reflexivity.
+Qed.
+
+Lemma flags_phase_gen : forall s d (c : byte) (r : list byte) fuel st,
+  pos_ok d = true ->
+  s = [37%N] ++ pos_chars d ++ map flag_char (d_flags d) ++ c :: r ->
+  not_flag c -> c <> 0%N -> c <> 36%N -> (is_digit c = true -> nth 0 r 0%N <> 36%N) ->
+  (S (length (d_flags d)) < fuel)%nat ->
+  flags_loop s fuel 1 (set_dollar false default_options) false st
+  = (st, Ok ((1 + length (pos_chars d) + length (d_flags d))%nat, apply_flags (d_flags d) (base_opts d), dollar_of d)).
+Proof.
+  intros s d c r fuel st Hpok Hs Hnf Hc0 Hc36 Hd Hf.
+  unfold pos_chars, base_opts, dollar_of, pos_ok in *. destruct (d_pos d) as [n|] eqn:Ep.
+  - (* n$ *)
+    assert (Hn : (1 <= n <= 9)%N).
+    { apply andb_true_iff in Hpok. destruct Hpok as [Hpok _]. apply andb_true_iff in Hpok. destruct Hpok as [Hpok _].
+      apply andb_true_iff in Hpok. destruct Hpok as [H1 H9]. lia. }
+    destruct fuel as [|fuel]; [lia|]. cbn [flags_loop].
+    set (t := map flag_char (d_flags d) ++ c :: r) in *.
+    assert (Hnext : nth 0 t 0%N <> 0%N).
+    { subst t. destruct (d_flags d) as [|f fl]; cbn [map app nth]; [assumption | apply flag_char_facts]. }
+    mstep ltac:(rewrite Hs; apply (read_app [37%N] ([(48 + n)%N; 36%N] ++ t) 0); cbn; lia). cbn [app nth].
+    assert (Hdig : is_digit (48 + n) = true) by (unfold is_digit; lia). rewrite Hdig.
+    assert (Hpos : (mbind (read s (1 + 1)) (fun c1 => ret (N.eqb c1 36))) st = (st, Ok true)).
+    { unfold mbind. rewrite Hs. rewrite (read_app [37%N] ([(48 + n)%N; 36%N] ++ t) 1) by (cbn; lia). reflexivity. }
+    mstep ltac:(exact Hpos). cbv iota.
+    mstep ltac:(rewrite Hs; apply (assert_nz_app [37%N] ([(48 + n)%N; 36%N] ++ t) 2); [cbn; lia | cbn [app nth]; exact Hnext]).
+    replace (Z.of_N (48 + n) - 48 - 1) with (Z.of_N n - 1) by lia.
+    rewrite (flags_loop_eval' s (1 + 2)%nat (d_flags d) [37%N; (48 + n)%N; 36%N] c r);
+      [ | rewrite Hs; reflexivity | reflexivity | assumption | assumption | assumption | assumption | lia ].
+    reflexivity.
+  - (* no position *)
+    rewrite (flags_loop_eval' s 1%nat (d_flags d) [37%N] c r);
+      [ | rewrite Hs; reflexivity | reflexivity | assumption | assumption | assumption | assumption | lia ].
+    reflexivity.
+Qed.
+
+Lemma base_opts_arg_pos : forall d, d_pos d = None -> arg_pos (base_opts d) = -1.
+Proof. intros d H. unfold base_opts. rewrite H. reflexivity. Qed.
+
+Lemma pos_ok_star : forall d, pos_ok d = true ->
+  (d_width d = WStar -> d_pos d = None) /\ (d_prec d = PStar -> d_pos d = None).
+Proof.
+  intros d H. unfold pos_ok in H. destruct (d_pos d); [|split; reflexivity].
+  apply andb_true_iff in H. destruct H as [H Hp]. apply andb_true_iff in H. destruct H as [_ Hw].
+  split; intros E; rewrite E in *; discriminate.
+Qed.
+
+Theorem parse_directive_render_gen : forall d v out rest pops cache na st2,
+  pos_ok d = true -> d_conv d <> Cpct -> width_ok d = true -> prec_ok d = true ->
+  (match d_width d with WStar => in_int_range (a_width v) && negb (a_width v =? -2147483648) | _ => true end) = true ->
+  (match d_prec d with PStar => in_int_range (a_prec v) | _ => true end) = true ->
+  ag (conv_char (d_conv d)) (opts_from d v) (szmod_of (d_len d))
+     (mk_ps out (mk_vs rest (pops ++ star_pops d) cache na)) = (st2, Ok tt) ->
+  parse_directive (render d) ag 1 false (mk_ps out (mk_vs (star_slots d v ++ rest) pops cache na))
+  = (st2, Ok (length (render d), dollar_of d)).
+Proof.
+  intros d v out rest pops cache na st2 Hposok Hconv Hwok Hpok Hwfit Hpfit Hag.
+  pose proof (render_shape_gen d Hconv) as Hs.
+  destruct (pos_ok_star d Hposok) as [Hws Hps].
+  destruct (width_tail_cons d Hconv Hwok) as [c1 [r1 [H1 [Hnf1 [Hc10 [Hc136 [Hc137 Hd1]]]]]]].
+  destruct (prec_tail_cons d Hconv) as [c2 [r2 [H2 [Hd2 [H242 [H237 [Hnz2 [Hnf2 Hr2]]]]]]]].
+  destruct (tail3_cons d Hconv) as [c3 [r3 [H3 [Hpl3 Hr3]]]].
+  remember (render d) as s eqn:Es. clear Es.
+  set (F := map flag_char (d_flags d)) in *.
+  set (PP := pos_chars d) in *.
+  assert (HF : length F = length (d_flags d)) by (subst F; apply map_length).
+  assert (Hlen : length s = (1 + length PP + length F + length (width_chars d) + length (prec_chars d) + length (tail3 d))%nat).
+  { rewrite Hs. rewrite !app_length. cbn [length]. lia. }
+  assert (Hl3 : length (tail3 d) = (length (len_chars (d_len d)) + 1)%nat) by (unfold tail3; rewrite app_length; reflexivity).
+  unfold parse_directive.
+  mstep ltac:(apply (flags_phase_gen s d c1 r1);
+              [assumption | rewrite Hs; fold F; fold PP; rewrite H1; reflexivity | assumption | assumption | assumption | assumption | lia]).
+  cbv beta iota. fold PP.
+  set (o1 := apply_flags (d_flags d) (base_opts d)).
+  assert (Ho1 : d_pos d = None -> arg_pos o1 = -1).
+  { intros Hn. subst o1. rewrite apply_flags_arg_pos. apply base_opts_arg_pos. assumption. }
+  unfold star_slots. rewrite <- app_assoc.
+  rewrite (width_phase_k _ _ s _ d v (([37%N] ++ PP) ++ F) (prec_chars d ++ tail3 d) c2 r2);
+    [ | rewrite Hs; rewrite <- !app_assoc; reflexivity
+      | rewrite !app_length; rewrite HF; cbn [length]; lia
+      | assumption | assumption | intros E; apply Ho1; apply Hws; exact E | assumption | assumption | assumption | assumption | lia].
+  cbv beta iota.
+  set (o2 := width_opts d v o1).
+  assert (Ho2 : d_pos d = None -> arg_pos o2 = -1) by (intros Hn; subst o2; rewrite width_opts_arg_pos; apply Ho1; assumption).
+  rewrite (prec_phase_k _ _ s _ d v ((([37%N] ++ PP) ++ F) ++ width_chars d) (tail3 d) c3 r3);
+    [ | rewrite Hs; rewrite <- !app_assoc; reflexivity
+      | rewrite !app_length; rewrite HF; cbn [length]; lia
+      | assumption | assumption | intros E; apply Ho2; apply Hps; exact E | assumption | assumption | lia].
+  cbv beta iota.
+  mstep ltac:(apply (parse_size_mod_eval' s _ (d_len d) (((([37%N] ++ PP) ++ F) ++ width_chars d) ++ prec_chars d) (conv_char (d_conv d)));
+              [rewrite Hs; unfold tail3; rewrite <- !app_assoc; reflexivity
+              | rewrite !app_length; rewrite HF; cbn [length]; lia
+              | apply conv_char_is; assumption]).
+  cbv beta iota.
+  assert (Hrd : forall st, read s (1 + length PP + length (d_flags d) + length (width_chars d) + length (prec_chars d) + length (len_chars (d_len d))) st
+                           = (st, Ok (conv_char (d_conv d)))).
+  { intros st. rewrite Hs. unfold tail3.
+    replace ([37%N] ++ PP ++ F ++ width_chars d ++ prec_chars d ++ len_chars (d_len d) ++ [conv_char (d_conv d)])
+      with (([37%N] ++ PP ++ F ++ width_chars d ++ prec_chars d ++ len_chars (d_len d)) ++ [conv_char (d_conv d)])
+      by (rewrite <- !app_assoc; reflexivity).
+    replace (1 + length PP + length (d_flags d) + length (width_chars d) + length (prec_chars d) + length (len_chars (d_len d)))%nat
+      with (length ([37%N] ++ PP ++ F ++ width_chars d ++ prec_chars d ++ len_chars (d_len d)))
+      by (rewrite !app_length; rewrite HF; cbn [length]; lia).
+    apply read_app0. }
+  mstep ltac:(apply Hrd).
+  rewrite <- app_assoc. fold (star_pops d).
+  mstep ltac:(exact Hag).
+  unfold ret. f_equal. f_equal. f_equal. lia.
+Qed.
+
+Lemma render_head_gen : forall d, pos_ok d = true -> d_conv d <> Cpct -> width_ok d = true ->
+  exists c r, render d = 37%N :: c :: r /\ c <> 0%N /\ c <> 37%N.
+Proof.
+  intros d Hpos Hconv Hwok. rewrite (render_shape_gen d Hconv).
+  destruct (width_tail_cons d Hconv Hwok) as [c1 [r1 [H1 [Hnf1 [Hc10 [Hc136 [Hc137 Hd1]]]]]]].
+  unfold pos_chars, pos_ok in *. destruct (d_pos d) as [n|].
+  - cbn [app]. eexists; eexists; split; [reflexivity|].
+    apply andb_true_iff in Hpos. destruct Hpos as [Hpos _]. apply andb_true_iff in Hpos. destruct Hpos as [Hpos _].
+    apply andb_true_iff in Hpos. destruct Hpos as [Hn1 Hn9]. split; lia.
+  - destruct (d_flags d) as [|f fl]; cbn [map app].
+    + rewrite H1. eexists; eexists; split; [reflexivity | split; assumption].
+    + eexists; eexists; split; [reflexivity|]. destruct f; cbn; split; discriminate.
+Qed.
+
+Theorem format_render_gen : forall d v out rest pops cache na st2,
+  pos_ok d = true -> d_conv d <> Cpct -> width_ok d = true -> prec_ok d = true ->
+  (match d_width d with WStar => in_int_range (a_width v) && negb (a_width v =? -2147483648) | _ => true end) = true ->
+  (match d_prec d with PStar => in_int_range (a_prec v) | _ => true end) = true ->
+  ag (conv_char (d_conv d)) (opts_from d v) (szmod_of (d_len d))
+     (mk_ps out (mk_vs rest (pops ++ star_pops d) cache na)) = (st2, Ok tt) ->
+  printf_format_with (render d) ag (mk_ps out (mk_vs (star_slots d v ++ rest) pops cache na)) = (st2, Ok tt).
+Proof.
+  intros d v out rest pops cache na st2 Hpos Hconv Hwok Hpok Hwfit Hpfit Hag.
+  pose proof (parse_directive_render_gen d v out rest pops cache na st2 Hpos Hconv Hwok Hpok Hwfit Hpfit Hag) as Hpd.
+  destruct (render_head_gen d Hpos Hconv Hwok) as [c [r [Hs [Hc0 Hc37]]]].
   remember (render d) as s eqn:Es. clear Es. subst s.
   unfold printf_format_with. cbn [length format_loop].
   mstep ltac:(apply (read_app0 [] (37%N :: c :: r))). cbn [nth N.eqb Pos.eqb negb].
